@@ -227,6 +227,14 @@ def real_libm(ex, st, name, args):
     if isinstance(a, float) or (len(args) > 1 and isinstance(args[1], float)):
         if any(isinstance(x, float) and x != x for x in args):
             return math.nan
+        if name in ('log', 'sqrt', 'exp', 'log1p', 'cbrt') and len(args) == 1:
+            if a == math.inf:
+                return math.inf
+            if name == 'exp':
+                return Fraction(0)
+            if name == 'cbrt':
+                return -math.inf
+            return math.nan
         raise Unsupported('REAL libm %s on infinite argument' % name)
     if name == 'sqrt':
         if isinstance(a, (Fraction, int)):
